@@ -5,7 +5,7 @@ from typing import Dict, List, Optional, Tuple
 
 from .. import normal, decoders, render, sym
 from ..model import AnalysisError, Repo
-from ..report import Run
+from ..report import Run, take_over
 from ..sym import T, const, param
 
 EXPLANATION = (
@@ -111,28 +111,10 @@ def header_words(terms: List[T], ev: T) -> List[int]:
     return sorted(set(out))
 
 
-def _take_over(run, mod_name: str, prop: str, repo, select, rule: str, label: str, why: str, floor: int) -> None:
-    """Obligations of another check that are necessary conditions here as well (judged there, reported here too)."""
-    import importlib
-    from ..model import AnalysisError as _AE
-    other = importlib.import_module(f"vstatic.rules.{mod_name}")
-    probe = Run(prop, run.tier, run.repo_root)
-    probe.is_probe = True           # (a check run for its obligations only: it does not take over from others in turn)
-    try:
-        other.check(repo, probe)
-    except _AE:
-        pass            # the floor below fails if the obligations were not reached
-    n = 0
-    for o in probe.obligations:
-        if select(o):
-            n += 1
-            run.ob(rule, o["module"], o["scope"], f"{label} ({prop}/{o['rule']}): {o['construct']}", o["ok"],
-                   (o.get("what", "") + " - " + why) if not o["ok"] else "", nontrivial=False)
-    run.floor(rule, f"{label}: obligations taken over from {prop}", n, floor)
 
 
 def check(repo: Repo, run: Run) -> None:
-    _take_over(run, "c04", "C04", repo, lambda o: o["rule"] == "K11" and "VFS_LOOKUP" in o["construct"], "R0",
+    take_over(run, "c04", "C04", repo, lambda o: o["rule"] == "K11" and "VFS_LOOKUP" in o["construct"], "R0",
                "lookup trace", "a reassembled lookup (of any length, the empty path included) then gives no lookup trace "
                "at all", 1)
     interp = sym.Interp(repo)
@@ -387,6 +369,7 @@ def check(repo: Repo, run: Run) -> None:
     # ------------------------------------------------------------------ R3 lookup order in path-taking decoders
     first_lookup = T("call", (T("attr", (PARSER, "parse_vnode")), (EVENTS,), ()))
     n_paths = 0
+    del UNDECIDED[:]
     for e in D.entries():
         if not e.key.startswith("BSC_"):
             continue
@@ -425,6 +408,141 @@ def check(repo: Repo, run: Run) -> None:
                                   f"a path position shows {worst[1]} instead of the looked-up path"),
                    line=e.func.lineno)
     run.floor("R3", "rendered path arguments", n_paths, 100)
+    # ------------------------------------------------------------------ R6 no lookup is located by counting records
+    # the records of another class that land inside a window are not the same in every run (a class filter removes them):
+    # a decoder that finds "the rest" of its window by the NUMBER of records an earlier lookup used reads another place when
+    # such a record lies in between
+    n_r6 = 0
+    for e in D.entries():
+        if not e.key.startswith("BSC_"):
+            continue
+        d = D.decode(e)
+        if d.ret is None:
+            continue
+        n_r6 += 1
+        counted = [x for x in sym.walk(d.ret) if x.op == "slice" and x.a[0] == EVENTS and any(
+            y.op == "call" and y.a[0] == T("builtin", ("len",)) and len(y.a[1]) == 1 and y.a[1][0].op == "attr"
+            and y.a[1][0].a[1] == "ktraces" for b in x.a[1:] if isinstance(b, T) for y in sym.walk(b))]
+        if counted:
+            run.ob("R6", e.module.name, e.func_name, f"{e.key}: no part of the window is located by counting another lookup's records",
+                   False, f"the decoder of {e.key} reads {sym.pretty(counted[0])[:80]}: a position found by counting the records of "
+                          f"an earlier lookup is shifted by every other record the thread logged in between (an interrupt, a sample)",
+                   line=e.func.lineno, witness="a record of another class between the START and the end of the first lookup")
+    run.ob("R6", "pykdebugparser.trace_handlers.bsd", "all decoders", "no part of a window is located by counting another lookup's records",
+           True, "", nontrivial=False)
+    run.floor("R6", "decoders scanned for positions found by counting", n_r6, 300)
+    # ------------------------------------------------------------------ R5 a path argument the kernel does not look up
+    nodes = T("call", (T("attr", (PARSER, "parse_vnodes")), (EVENTS,), ()))
+    n_r5 = 0
+    for e in D.entries():
+        if e.key not in FIRST_PATH_NOT_LOOKED_UP:
+            continue
+        d = D.decode(e)
+        if d.ret is None or d.ret.op != "new":
+            run.floor_failures.append(f"C08/R5: the result of the decoder of {e.key} is not followed")
+            continue
+        fields = [(k, v) for k, v in d.ret.a[1] if sym.contains(v, nodes)]
+        shown = [(k, _with_n_lookups(v, nodes, 1)) for k, v in fields]
+        if len(fields) < 2 or any(sh is None for _, sh in shown):
+            run.floor_failures.append(f"C08/R5: which path argument of {e.key} shows the only lookup of a window is not decided "
+                                      f"({[(k, sym.pretty(v)[:50]) for k, v in fields]})")
+            continue
+        n_r5 += 1
+        ok = shown[-1][1] == 0 and all(sh == "none" for _, sh in shown[:-1])
+        run.ob("R5", e.module.name, e.func_name, f"{e.key}: a window with one lookup shows it as the last path argument", ok,
+               "" if ok else
+               f"{e.key}: with exactly one nested lookup the path arguments show "
+               f"{[(k, 'no lookup' if sh == 'none' else f'lookup {sh}') for k, sh in shown]}; {FIRST_PATH_NOT_LOOKED_UP[e.key]}, so "
+               f"the one lookup of an ordinary call is the LAST path argument", line=e.func.lineno,
+               witness="START, one complete VFS_LOOKUP, END")
+    run.floor("R5", "decoders with a path argument that is not looked up", n_r5, 1)
+    if UNDECIDED:
+        run.floor_failures.append(f"C08/R3: {UNDECIDED[0]}: whether these are exactly the records the first lookup left is not decided")
+
+
+UNDECIDED: list = []
+
+# Darwin: path arguments that are plain strings to the kernel (never resolved, so no VFS_LOOKUP record belongs to them)
+FIRST_PATH_NOT_LOOKED_UP = {
+    "BSC_symlinkat": "symlinkat(2) stores its first argument as the link's contents without resolving it (bsd/vfs/vfs_syscalls.c, "
+                     "symlinkat_internal: only the link path goes through namei)",
+}
+
+
+def _with_n_lookups(v: T, nodes: T, n: int):
+    """What a field shows when the nested-lookup parser returned exactly n lookups: the index of the lookup, 'none' when the
+    field does not read one, None when that cannot be worked out."""
+    LEN = T("call", (T("builtin", ("len",)), (nodes,), ()))
+
+    def truth(c):
+        if c == nodes or c == LEN:
+            return n > 0
+        if c.op == "not":
+            t = truth(c.a[0])
+            return None if t is None else not t
+        if c.op == "bool":
+            ts = [truth(x) for x in c.a[1]]
+            if any(t is None for t in ts):
+                return None
+            return all(ts) if c.a[0] == "and" else any(ts)
+        if c.op == "slice" and len(c.a) == 3 and c.a[0] == nodes and c.a[2] == sym.NONE:
+            lo = 0 if c.a[1] == sym.NONE else c.a[1].a[0] if c.a[1].op == "const" and isinstance(c.a[1].a[0], int) else None
+            return None if lo is None or lo < 0 else n > lo
+        if c.op == "cmp" and c.a[0] in ("<", ">", "<=", ">=", "==", "!="):
+            l, r = c.a[1], c.a[2]
+            lv = n if l == LEN else l.a[0] if l.op == "const" and isinstance(l.a[0], int) else None
+            rv = n if r == LEN else r.a[0] if r.op == "const" and isinstance(r.a[0], int) else None
+            if lv is None or rv is None:
+                return None
+            return {"<": lv < rv, ">": lv > rv, "<=": lv <= rv, ">=": lv >= rv, "==": lv == rv, "!=": lv != rv}[c.a[0]]
+        return None
+
+    def value(t):
+        if t.op == "ite":
+            c = truth(t.a[0])
+            if c is None:
+                return None
+            return value(t.a[1] if c else t.a[2])
+        reads = [x for x in sym.walk(t) if x.op == "sub" and x.a[0] == nodes]
+        if not sym.contains(t, nodes):
+            return "none"
+        if len(reads) != 1 or any(x.op == "ite" for x in sym.walk(t)):
+            return None
+        k = reads[0].a[1]
+        if k.op != "const" or not isinstance(k.a[0], int) or not -n <= k.a[0] < n:
+            return None
+        return k.a[0] % n
+    return value(v)
+
+
+def _after_last_consumed(lo: T, consumed: T) -> bool:
+    """lo == events.index(consumed[-1]) + 1, possibly as `... if consumed else 0`."""
+    want = T("bin", ("+", T("call", (T("attr", (EVENTS, "index")), (T("sub", (consumed, const(-1))),), ())), const(1)))
+    if lo == want:
+        return True
+    # (the caller has replaced the condition of an `ite` by True: only the two values are looked at)
+    if lo.op == "ite" and (lo.a[0] == const(True) or render.norm_bool(lo.a[0]) == (consumed, True)) and lo.a[1] == want \
+            and lo.a[2] == const(0):
+        return True
+    return False
+
+
+def _rest_kind(it: T, consumed: T, by_identity: bool, has_conds: bool) -> str:
+    """How the records handed to the second lookup are chosen: 'ok' (what the first lookup left), 'wrong' (recognisably
+    something else), 'undecided'."""
+    if it.op == "ite":
+        ks = {_rest_kind(it.a[1], consumed, by_identity, has_conds), _rest_kind(it.a[2], consumed, by_identity, has_conds)}
+        return "ok" if ks == {"ok"} else "wrong" if ks == {"wrong"} else "undecided"
+    if it == EVENTS or (it.op == "slice" and len(it.a) == 3 and it.a[0] == EVENTS and it.a[1] in (sym.NONE, const(0))
+                        and it.a[2] == sym.NONE):
+        return "ok" if by_identity else "wrong"     # not computed from the remainder: it re-reads the first lookup
+    if it.op == "slice" and len(it.a) == 3 and it.a[0] == EVENTS and it.a[2] == sym.NONE:
+        lo = it.a[1]        # the remainder is taken from a suffix of the window
+        if _after_last_consumed(lo, consumed) and (by_identity or not has_conds):
+            return "ok"     # everything up to the last record of the first lookup is dropped: no record of a later lookup is
+        if any(y.op == "call" and y.a[0] == T("builtin", ("len",)) and y.a[1] == (consumed,) for y in sym.walk(lo)) and not by_identity:
+            return "wrong"  # a suffix found by COUNTING the first lookup's records: other records in between shift it
+    return "undecided"
 
 
 def lookup_ordinal(t: T, first_lookup: T) -> Optional[Tuple[float, bool]]:
@@ -440,8 +558,11 @@ def lookup_ordinal(t: T, first_lookup: T) -> Optional[Tuple[float, bool]]:
                 comp = base.a[1][0]
                 elemvar, it, conds = comp.a[2][0]
                 consumed = T("attr", (first_lookup, "ktraces"))
-                rest_ok = it == EVENTS and comp.a[1] == elemvar and conds == (T("cmp", ("not in", elemvar, consumed)),)
-                o = 1.0 if rest_ok else 0.0     # not computed from the remainder: it re-reads the first lookup
+                by_identity = comp.a[1] == elemvar and conds == (T("cmp", ("not in", elemvar, consumed)),)
+                kind = _rest_kind(it, consumed, by_identity, bool(conds)) if comp.a[1] == elemvar else "undecided"
+                if kind == "undecided":
+                    UNDECIDED.append(f"the records of the second lookup are taken from {sym.pretty(it)[:70]}")
+                o = 0.0 if kind == "wrong" else 1.0
             elif base.op == "sub" and base.a[0].op == "call" and base.a[0].a[0] == T("attr", (PARSER, "parse_vnodes")) \
                     and base.a[1].op == "const":
                 k = base.a[1].a[0]
